@@ -44,7 +44,108 @@ def cases(tier):
                                   'index': st.integers(0, 12)})
 
 
-STRATEGIES = {'pairs': cases}
+# ---- flat programs: repetitive straight-line code and multi-statement placeholder patterns over the same tiny alphabet, so that
+# candidates are dropped for placeholder conflicts and later candidates exist - with a brute-force embedding search as a second oracle
+_flat_stmt = st.one_of(
+    st.tuples(st.sampled_from('abc'), st.sampled_from(['0', '0', '1'])).map(lambda t: '%s = %s' % t),
+    st.tuples(st.sampled_from('abc'), st.sampled_from('abc')).map(lambda t: '%s = %s' % t),
+    st.tuples(st.sampled_from('abc'), st.sampled_from('abc'), st.sampled_from('abc')).map(lambda t: '%s = %s + %s' % t),
+    st.sampled_from('abc').map(lambda v: 'print(%s)' % v),
+    st.sampled_from(['setup', 'log']).map(lambda f: '%s()' % f))
+_PH = ['_x_', '_y_', '_z_']
+_flat_pat = st.one_of(
+    st.tuples(st.sampled_from(_PH + ['a']), st.sampled_from(['0', '1', '___'])).map(lambda t: '%s = %s' % t),
+    st.tuples(st.sampled_from(_PH), st.sampled_from(_PH + ['b'])).map(lambda t: '%s = %s' % t),
+    st.tuples(st.sampled_from(_PH), st.sampled_from(_PH), st.sampled_from(_PH + ['___'])).map(lambda t: '%s = %s + %s' % t),
+    st.sampled_from(_PH + ['c', '___']).map(lambda v: 'print(%s)' % v),
+    st.sampled_from(['_f_', '_g_', 'setup']).map(lambda f: '%s()' % f))
+
+
+def flat_cases(tier):
+    return st.fixed_dictionaries({'flat': st.just(True), 'code': st.lists(_flat_stmt, min_size=3, max_size=7).map(lambda l: '\n'.join(l) + '\n'),
+                                  'pattern': st.lists(_flat_pat, min_size=2, max_size=4).map('\n'.join)})
+
+
+def _node_embeds(p, s, binding):
+    """All extensions of `binding` under which pattern node p matches student node s exactly (no stretching inside a statement)."""
+    if isinstance(p, ast.Name) and PLACE.match(p.id):
+        if WILD.match(p.id):
+            return [binding]
+        if not isinstance(s, ast.Name):
+            return []
+        if binding.get(p.id, s.id) != s.id:
+            return []
+        return [dict(binding, **{p.id: s.id})]
+    if type(p) is not type(s):
+        return []
+    if isinstance(p, ast.Expr):
+        return _node_embeds(p.value, s.value, binding)
+    if isinstance(p, ast.Constant):
+        return [binding] if prim_equal(p.value, s.value) else []
+    if isinstance(p, ast.Name):
+        return [binding] if p.id == s.id else []
+    if isinstance(p, ast.Assign):
+        if len(p.targets) != len(s.targets):
+            return []
+        pairs = list(zip(p.targets, s.targets)) + [(p.value, s.value)]
+    elif isinstance(p, ast.BinOp):
+        if type(p.op) is not type(s.op):
+            return []
+        out = _pairs_embed([(p.left, s.left), (p.right, s.right)], binding)
+        if isinstance(p.op, (ast.Add, ast.Mult)):
+            out += _pairs_embed([(p.left, s.right), (p.right, s.left)], binding)
+        return out
+    elif isinstance(p, ast.Call):
+        if p.keywords or s.keywords:
+            return None
+        # stretchy: the pattern's arguments pair with a subsequence of the student's arguments
+        out = []
+        import itertools as _it
+        for chosen in _it.combinations(range(len(s.args)), len(p.args)):
+            r = _pairs_embed([(p.func, s.func)] + [(p.args[k], s.args[j]) for k, j in enumerate(chosen)], binding)
+            if r is None:
+                return None
+            out += r
+        return out
+    else:
+        return None      # a shape this reference does not model
+    return _pairs_embed(pairs, binding)
+
+
+def _pairs_embed(pairs, binding):
+    states = [binding]
+    for a, b in pairs:
+        nxt = []
+        for st_ in states:
+            r = _node_embeds(a, b, st_)
+            if r is None:
+                return None
+            nxt += r
+        states = nxt
+    return states
+
+
+def flat_embedding_exists(pattern, code):
+    """True / False / None (not modelled): is there an increasing choice of program statements that the pattern statements match one by one
+    under one consistent binding of the _var_ placeholders?"""
+    ps, ss = ast.parse(pattern).body, ast.parse(code).body
+
+    def go(i, start, binding):
+        if i == len(ps):
+            return True
+        for j in range(start, len(ss)):
+            r = _node_embeds(ps[i], ss[j], binding)
+            if r is None:
+                return None
+            for b in r:
+                res = go(i + 1, j + 1, b)
+                if res is None or res:
+                    return res
+        return False
+    return go(0, 0, {})
+
+
+STRATEGIES = {'pairs': cases, 'flat': flat_cases}
 
 
 # ---------------------------------------------------------------------------------------------------------
@@ -252,7 +353,37 @@ def concrete_nodes(pattern):
     return sum(1 for n in ast.walk(tree) if not isinstance(n, (ast.expr_context, ast.Module, ast.Expr)) and not is_placeholder_node(n))
 
 
+def judge_flat(case):
+    from pedal.core.report import MAIN_REPORT
+    from pedal.cait.cait_api import find_matches
+    code, pattern = case['code'], case['pattern']
+    MAIN_REPORT.full_clear()
+    viol = []
+    try:
+        matches = find_matches(pattern, code)
+    except BaseException as e:
+        import traceback
+        tb = traceback.extract_tb(e.__traceback__)[-1]
+        MAIN_REPORT.full_clear()
+        return Result([V('C10|find_matches-raises:%s@%s' % (type(e).__name__, tb.name), 'find_matches raised %s: %s (%s:%s)\npattern:\n%s\nprogram:\n%s'
+                         % (type(e).__name__, e, tb.filename, tb.lineno, pattern, code))], True, ['kind=flat'])
+    desc = 'pattern %r in program %r' % (pattern, code)
+    exists = flat_embedding_exists(pattern, code)
+    classes = ['kind=flat', 'flat-embedding=%s' % exists, 'matches=%d' % min(len(matches), 3)]
+    if exists is False and matches:
+        viol.append(V('C10|flat|match-without-embedding', 'no increasing choice of statements embeds the pattern, but %d match(es) were returned: %s' % (len(matches), desc)))
+    for m in matches[:20]:
+        before = len(viol)
+        check_match(m, viol, desc)
+        if len(viol) > before:
+            break
+    MAIN_REPORT.full_clear()
+    return Result(viol[:2], bool(matches) or exists is False, classes)
+
+
 def judge(case):
+    if case.get('flat'):
+        return judge_flat(case)
     from pedal.core.report import MAIN_REPORT
     from pedal.cait.cait_api import find_matches
     code, kind = case['code'], case['kind']
@@ -318,4 +449,4 @@ def judge(case):
 
 def plan(tier):
     n = 500 if tier == 'quick' else 20000
-    return [Task('hyp', 'pairs', shards=16, examples=scale(n))]
+    return [Task('hyp', 'pairs', shards=12, examples=scale(n)), Task('hyp', 'flat', shards=4, examples=scale(4 * n))]
